@@ -411,6 +411,66 @@ pub fn run_c03(tier: Tier) -> Report {
             }
         }
     }
+    // the same for pictures that end early: the macroblocks after the end are copies of the reference,
+    // so without a reference the picture needs prediction however its transmitted macroblocks are
+    // coded - a bare header, and every prefix of all-intra, mixed and all-inter pictures, P and D,
+    // both modes, on a fresh decoder and after a rejected key picture
+    {
+        let mut early: Vec<Pic> = vec![];
+        for std in [false, true] {
+            for ptype in [1u8, 2] {
+                if std && ptype == 2 {
+                    continue;
+                }
+                for content in 0..3usize {
+                    let specs: Vec<Spec> = (0..4usize)
+                        .map(|i| match content {
+                            0 => Spec::Intra,
+                            1 => {
+                                if i % 2 == 0 {
+                                    Spec::Intra
+                                } else {
+                                    Spec::Inter((1, -1), false)
+                                }
+                            }
+                            _ => Spec::Inter((2, 1), false),
+                        })
+                        .collect();
+                    let hdr = if std { Hdr::Std(StdHdr::custom(32, 32, true, 1, 7)) } else { shdr(32, 32, ptype, 1, 7, (content % 2) as u8) };
+                    let v1 = hdr.v1();
+                    let mut full = Pic { hdr, mbs: mbs_for(&specs, 2, v1, true) };
+                    fix_last_flags(&mut full);
+                    for k in 0..4usize {
+                        let mut q = full.clone();
+                        q.mbs.truncate(k);
+                        early.push(q);
+                    }
+                }
+            }
+        }
+        for p in &early {
+            for after_reject in [false, true] {
+                let mut d = Dec::for_hdr(&p.hdr);
+                if after_reject {
+                    let bad_hdr = if matches!(p.hdr, Hdr::Std(_)) { Hdr::Std(StdHdr::custom(32, 32, false, 0, 7)) } else { shdr(32, 32, 0, 0, 7, 0) };
+                    let bad = Pic { hdr: bad_hdr, mbs: vec![Mb::intra_flat(60), Mb::Raw(vec![true, false, false, true, true, false, false, false, false, false, false, false, false])] };
+                    let _ = crate::util::decode_bytes(&mut d.st, &encode_bytes(&bad));
+                    d.fed.push(encode_bytes(&bad));
+                }
+                let bytes = encode_bytes(p);
+                d.fed.push(bytes.clone());
+                let o = crate::util::decode_bytes(&mut d.st, &bytes);
+                n_noref += 1;
+                if !o.is_err() {
+                    rep.violation(
+                        &format!("C03/no-reference-early-ended-picture-{}", if o.is_ok() { "accepted" } else { "panic" }),
+                        format!("{} ({} of 4 macroblocks sent) on a decoder without reference picture: {}", describe(p), p.mbs.len(), o.short()),
+                        d.replay("no-reference, early end"),
+                    );
+                }
+            }
+        }
+    }
     rep.add_transitions(n_noref);
     rep.add_states(n_noref);
 
@@ -637,7 +697,7 @@ pub fn run_c03(tier: Tier) -> Report {
 
     r.finish();
     rep.set_rule(
-        "P/D pictures as syntax trees over LCG-noise reference pictures, decoded by H263State and by the reference decoder (median prediction, wrap, chroma vector, bilinear half-sample, edge clamp, residual add/clip): all 7^n macroblock-kind assignments on 5 grids; every differential (64x64) on single-macroblock pictures of each size class and on the interior macroblock of 48x48 x 3 residual kinds; truncation after every macroblock and at every byte; no-reference rejection; residual clipping; every ordered pair of ways to signal one picture size between the reference and the predicted picture; every ordered pair of 17 colliding sizes as histories I(A)[,P(A)|D(A)],I(B),[D(B),]P(B); \
+        "P/D pictures as syntax trees over LCG-noise reference pictures, decoded by H263State and by the reference decoder (median prediction, wrap, chroma vector, bilinear half-sample, edge clamp, residual add/clip): all 7^n macroblock-kind assignments on 5 grids; every differential (64x64) on single-macroblock pictures of each size class and on the interior macroblock of 48x48 x 3 residual kinds; truncation after every macroblock and at every byte; no-reference rejection (complete pictures, and every early-ended prefix of all-intra / mixed / all-inter pictures incl. the bare header); residual clipping; every ordered pair of ways to signal one picture size between the reference and the predicted picture; every ordered pair of 17 colliding sizes as histories I(A)[,P(A)|D(A)],I(B),[D(B),]P(B); \
          non-trivial = sequence whose predicted picture has a non-zero vector or a residual",
     );
     rep.sample(json!({"sweep": "mb-types", "picture": "32x32 [Inter4VQ, NotCoded, IntraQ, Inter] over a noise reference"}));
@@ -656,6 +716,9 @@ pub fn run_c12(tier: Tier) -> Report {
     let mut cases = vec![];
     let ref2 = noise_intra(shdr(32, 16, 0, 0, 5, 0), seed);
     let ref9 = noise_intra(shdr(48, 48, 0, 0, 5, 0), seed);
+    let ref2_v1 = noise_intra(shdr(32, 16, 0, 0, 5, 1), seed);
+    let ref2_plus = noise_intra(Hdr::Std(StdHdr::custom(32, 16, false, 0, 5)), seed);
+    let ref_base = noise_intra(Hdr::Std(StdHdr::baseline(1, false, 0, 5)), seed);
     for p in -32..=31i32 {
         for d in -32..=31i8 {
             for comp in 0..3usize {
@@ -671,7 +734,16 @@ pub fn run_c12(tier: Tier) -> Report {
                 };
                 // two macroblocks: first carries p (predictor 0), second has predictor p
                 let mbs = vec![Mb::inter((pv.0 as i8, pv.1 as i8)), Mb::inter(dv)];
-                cases.push(vec![ref2.clone(), Pic { hdr: shdr(32, 16, 1, 1, 5, 0), mbs }]);
+                cases.push(vec![ref2.clone(), Pic { hdr: shdr(32, 16, 1, 1, 5, 0), mbs: mbs.clone() }]);
+                // the same under the other header kinds that select the base range: Sorenson version 1,
+                // H.263 with PLUSPTYPE and no optional mode, H.263 with a plain PTYPE (sub-QCIF)
+                cases.push(vec![ref2_v1.clone(), Pic { hdr: shdr(32, 16, 1, 1, 5, 1), mbs: mbs.clone() }]);
+                cases.push(vec![ref2_plus.clone(), Pic { hdr: Hdr::Std(StdHdr::custom(32, 16, true, 1, 5)), mbs: mbs.clone() }]);
+                if comp == 2 || tier.thorough() {
+                    let mut m = mbs.clone();
+                    m.extend((2..48).map(|_| Mb::NotCoded));
+                    cases.push(vec![ref_base.clone(), Pic { hdr: Hdr::Std(StdHdr::baseline(1, true, 1, 5)), mbs: m }]);
+                }
                 if comp < 2 || tier.thorough() {
                     // 3x3 grid: all of row 0 and macroblock 3 carry p, centre macroblock codes d
                     let mut mbs = vec![Mb::inter((pv.0 as i8, pv.1 as i8)), Mb::inter((0, 0)), Mb::inter((0, 0)), Mb::inter((0, 0)), Mb::inter(dv)];
@@ -949,7 +1021,7 @@ pub fn run_c12(tier: Tier) -> Report {
 
     r.finish();
     rep.set_rule(
-        "whole P pictures compared with the reference decoder: all 64x64 (predictor, differential) pairs per component and jointly, in a 2-macroblock row and in the centre of a 3x3 grid; all four-vector sums -128..=124 x 3 decompositions x 2 components x 2 positions; every assignment of {INTER, INTER4V, INTRA, not-coded} to the existing neighbours of every target position on 9 macroblock grids x target {INTER, INTER4V}; every MVD codeword; every assignment of zero / non-zero vectors inside one and two four-vector neighbours of every target position; with Annex D in PLUSPTYPE (UUI = 1): every legal vector at widths and heights on both sides of every range-class boundary; \
+        "whole P pictures compared with the reference decoder: all 64x64 (predictor, differential) pairs per component and jointly, in a 2-macroblock row (under four header kinds: Sorenson version 0 and 1, H.263 PLUSPTYPE without optional modes, H.263 plain PTYPE) and in the centre of a 3x3 grid; all four-vector sums -128..=124 x 3 decompositions x 2 components x 2 positions; every assignment of {INTER, INTER4V, INTRA, not-coded} to the existing neighbours of every target position on 9 macroblock grids x target {INTER, INTER4V}; every MVD codeword; every assignment of zero / non-zero vectors inside one and two four-vector neighbours of every target position; with Annex D in PLUSPTYPE (UUI = 1): every legal vector at widths and heights on both sides of every range-class boundary; \
          non-trivial = all (each case has a non-zero predictor, differential or neighbour)",
     );
     rep.sample(json!({"sweep": "pairs", "case": "32x16: MB0 vector (+15.5, 0), MB1 differential +0.5 -> expected (-16.0, 0)"}));
